@@ -16,48 +16,52 @@ SDLS = [
     # bundle 0: union + field-level type resolver + custom scalar + directive
     """
     directive @tweak(by: String = "d") on FIELD_DEFINITION
+    directive @same on FIELD_DEFINITION | FIELD
     scalar Tag
     type Cat { name: String meow: Int }
     type Dog { name: String bark: Int }
     union Pet = Cat | Dog
     interface Named { name: String }
-    type Query { pet: Pet pets: [Pet] tag: Tag @tweak hello(n: Int = 1): String named: Named }
+    type Query { pet: Pet pets: [Pet] tag: Tag @tweak hello(n: Int = 1): String @same named: Named }
     type Subscription { tick: Int }
     type Robot implements Named { name: String }
     """,
     # bundle 1: same names, different shapes; type-level @TypeResolver
     """
     directive @tweak(by: String = "e") on FIELD_DEFINITION
+    directive @same on FIELD_DEFINITION | FIELD
     scalar Tag
     type Cat implements Named { name: String meow: Int }
     type Dog implements Named { name: String bark: Int }
     union Pet = Cat | Dog
     interface Named { name: String }
-    type Query { pet: Pet pets: [Pet] tag: Tag @tweak(by: "x") hello(n: Int = 2): String named: Named }
+    type Query { pet: Pet pets: [Pet] tag: Tag @tweak(by: "x") hello(n: Int = 2): String @same named: Named }
     type Subscription { tick: Int }
     """,
     # bundle 2: default type resolution (_typename), no directive implementation needed on tag
     """
     directive @tweak(by: String = "f") on FIELD_DEFINITION
+    directive @same on FIELD_DEFINITION | FIELD
     scalar Tag
     type Cat { name: String meow: Int }
     type Dog { name: String bark: Int }
     union Pet = Dog | Cat
     interface Named { name: String }
     type Rock implements Named { name: String }
-    type Query { pet: Pet pets: [Pet] tag: Tag hello(n: Int = 3): String named: Named }
+    type Query { pet: Pet pets: [Pet] tag: Tag hello(n: Int = 3): String @same named: Named }
     type Subscription { tick: Int }
     """,
     # bundle 3: Pet is an interface here
     """
     directive @tweak(by: String = "g") on FIELD_DEFINITION
+    directive @same on FIELD_DEFINITION | FIELD
     scalar Tag
     interface Pet { name: String }
     type Cat implements Pet { name: String meow: Int }
     type Dog implements Pet { name: String bark: Int }
     interface Named { name: String }
     type Rock implements Named { name: String }
-    type Query { pet: Pet pets: [Pet] tag: Tag @tweak hello(n: Int = 4): String named: Named }
+    type Query { pet: Pet pets: [Pet] tag: Tag @tweak hello(n: Int = 4): String @same named: Named }
     type Subscription { tick: Int }
     """,
 ]
@@ -66,6 +70,7 @@ REQUESTS = [
     "{ pet { __typename ... on Cat { name meow } ... on Dog { name bark } } }",
     "{ pets { __typename ... on Cat { meow } ... on Dog { bark } } }",
     "{ tag hello a: hello(n: 7) }",
+    "{ tag @same b: hello(n: 8) @same }",
     "{ named { __typename name } }",
     "{ __type(name: \"Pet\") { kind possibleTypes { name } } }",
     "{ __schema { directives { name args { name defaultValue } } } }",
@@ -125,6 +130,13 @@ def register(i):
         async def on_field_execution(self, directive_args, next_resolver, parent, args, ctx, info):
             r = await next_resolver(parent, args, ctx, info)
             return "%s|%d:%s" % (r, i, directive_args["by"])
+
+    # the SAME definition (name, locations, no arguments, no description) in every bundle, another implementation in each
+    @Directive("same", schema_name=sn)
+    class Same:
+        async def on_field_execution(self, directive_args, next_resolver, parent, args, ctx, info):
+            r = await next_resolver(parent, args, ctx, info)
+            return "%s|same%d" % (r, i)
 
     @Subscription("Subscription.tick", schema_name=sn)
     async def tick(p, a, c, info):
